@@ -824,6 +824,34 @@ Section CmdFacts.
     intros _. exists b, r, t. cbn [fst]. unfold upd. rewrite seqb_refl.
     split; [reflexivity | split; [exact Er | split; [exact Et | reflexivity]]].
   Qed.
+  (* the result depends only on the input file: two file systems that agree on the input give the
+     same exit class and, on success, the same content at the output path - whatever the output
+     path held before (nothing, an earlier migration, anything else) *)
+  Lemma run_depends_on_input f f' inp outp :
+    f inp = f' inp ->
+    snd (run_cmd parse encode writable f inp outp) = snd (run_cmd parse encode writable f' inp outp) /\
+    (snd (run_cmd parse encode writable f inp outp) = ExitOk ->
+     fst (run_cmd parse encode writable f inp outp) outp = fst (run_cmd parse encode writable f' inp outp) outp).
+  Proof.
+    intros E. unfold run_cmd. rewrite <- E.
+    destruct (f inp) as [b|]; [|split; [reflexivity | discriminate]].
+    destruct (parse b) as [r|]; [|split; [reflexivity | discriminate]].
+    destruct (migrate r); [|split; [reflexivity | discriminate]].
+    destruct (writable outp); [|split; [reflexivity | discriminate]].
+    split; [reflexivity|]. intros _. cbn [fst]. unfold upd. rewrite seqb_refl. reflexivity.
+  Qed.
+
+  (* two-step history: migrating A to [outp] and then B to the same [outp] leaves there what
+     migrating B alone leaves there (B's file is not the output path) *)
+  Lemma run_two_step f inpA inpB outp :
+    inpB <> outp ->
+    let f1 := fst (run_cmd parse encode writable f inpA outp) in
+    snd (run_cmd parse encode writable f1 inpB outp) = snd (run_cmd parse encode writable f inpB outp) /\
+    (snd (run_cmd parse encode writable f1 inpB outp) = ExitOk ->
+     fst (run_cmd parse encode writable f1 inpB outp) outp = fst (run_cmd parse encode writable f inpB outp) outp).
+  Proof.
+    intros Hne f1. apply run_depends_on_input. unfold f1. apply run_frame. exact Hne.
+  Qed.
 End CmdFacts.
 
 (* ------------------------------------------------------------------ unmapped keys have no influence *)
